@@ -703,11 +703,15 @@ end
 
 end Walk
 
+/-- `command.strip(" \t\n")` at the head of `analyze`: only what bash itself skips – a form feed, NBSP or NEL stays part
+    of the word (the character set comes from T0) -/
+def stripCmd (command : String) : String := Py.stripChars command Generated.Quoting.analyzeStripChars.toList
+
 /-- `analyze(command, config, cwd, remote=…)`, by recursion on fuel. -/
 def analyzeStr (w : World) (h : HelpTables) : Nat → Rec
   | 0, _, _, _ => ⟨.ask, "<out-of-fuel>"⟩
   | n + 1, command, cwd, remote =>
-    let command := Py.strip command
+    let command := stripCmd command
     if command.isEmpty then ⟨.ask, "empty command"⟩
     else match w.parse command with
       | .error msg => ⟨.ask, "parse error: " ++ msg⟩
